@@ -33,7 +33,7 @@ fn gen_case(r: &mut Rng, id: usize) -> Case {
         6 => PkDecl::Tbl,
         _ => PkDecl::None,
     };
-    let pk = if pkdecl == PkDecl::None { None } else { Some(r.below(ncols as u64) as usize) };
+    let pk = if pkdecl == PkDecl::None { None } else if r.chance(1, 3) { Some(0) } else { Some(r.below(ncols as u64) as usize) };
     let mut cols = vec![];
     for i in 0..ncols {
         let ty = if Some(i) == pk {
@@ -142,7 +142,19 @@ fn gen_case(r: &mut Rng, id: usize) -> Case {
         };
         // residual filter on a non-key column only (range pushdown is C13's subject)
         let nonkey: Vec<usize> = (0..ncols).filter(|c| Some(*c) != pk).collect();
-        let wh = if !nonkey.is_empty() && r.chance(1, 4) {
+        let wh = if pk.is_some() && r.chance(1, 4) {
+            // a key-range predicate (pushed into the scan when the key is the INT first column)
+            // together with the ORDER BY: the planner's order contract must hold for range scans too
+            let c = pk.unwrap();
+            let v = gen_val(r, cols[c].ty, false);
+            let op = *r.pick(&[">", ">=", "<", "<=", ">="]);
+            let mut w = format!(" where {} {} {}", colname(c), op, sql_lit(&v));
+            if r.chance(1, 3) {
+                let v2 = gen_val(r, cols[c].ty, false);
+                w += &format!(" and {} {} {}", colname(c), if op.starts_with('>') { "<=" } else { ">" }, sql_lit(&v2));
+            }
+            w
+        } else if !nonkey.is_empty() && r.chance(1, 4) {
             let c = *r.pick(&nonkey);
             let v = gen_val(r, cols[c].ty, false);
             let op = *r.pick(&["=", ">", ">=", "<", "<="]);
@@ -185,6 +197,18 @@ fn gen_case(r: &mut Rng, id: usize) -> Case {
     let mut scans = vec![];
     if pkdecl == PkDecl::Col {
         scans.push(ScanReq { cols: (0..ncols).collect(), range: None, sorted: true });
+        // the ordered (merging) scan WITH a key range, as the executor requests it for
+        // `WHERE k >= c ORDER BY k`
+        if pk == Some(0) && cols[0].ty == Ty::I32 {
+            let lo = gen_val(r, Ty::I32, false);
+            let hi = gen_val(r, Ty::I32, false);
+            let range = match r.below(3) {
+                0 => (Bnd::Incl(lo), Bnd::Unb),
+                1 => (Bnd::Excl(lo), Bnd::Incl(hi)),
+                _ => (Bnd::Unb, Bnd::Excl(hi)),
+            };
+            scans.push(ScanReq { cols: (0..ncols).collect(), range: Some(range), sorted: true });
+        }
     }
     scans.push(ScanReq { cols: (0..ncols).collect(), range: None, sorted: false });
     Case { id, nobg, block, cols, pk, pkdecl, ops, queries, scans }
